@@ -172,12 +172,12 @@ Section Arr.
     else
       let '(x, y) := if y <? x then (y, x) else (x, y) in
       let w := width a in
-      let* (left, right) := split_at (inner a) (y * w) in
-      let* row_b := lslice right 0 w in
-      let* row_a := lslice left (x * w) ((x + 1) * w) in
+      let* (lft, rgt) := split_at (inner a) (y * w) in
+      let* row_b := lslice rgt 0 w in
+      let* row_a := lslice lft (x * w) ((x + 1) * w) in
       (* swap_with_slice: both slices have length w *)
-      Ok (mkArr ((firstn (x * w) left ++ row_b ++ skipn ((x + 1) * w) left)
-                 ++ (row_a ++ skipn w right)) (height a) (width a)).
+      Ok (mkArr ((firstn (x * w) lft ++ row_b ++ skipn ((x + 1) * w) lft)
+                 ++ (row_a ++ skipn w rgt)) (height a) (width a)).
 
   (* ---- whole-array functions ------------------------------------------------ *)
   Definition amap {U : Type} (f : T -> U) (a : arr T) : arr U :=
@@ -508,3 +508,9 @@ Fixpoint trace_s (g : grid) (ops : list op) : list (res unit) :=
   | [] => []
   | o :: ops' => snd (step_s g o) :: trace_s (fst (step_s g o)) ops'
   end.
+
+(* the element functions the correspondence harness passes to map / rows_mut
+   (entries stay below 100 in absolute value; Rust's `%` truncates like Z.rem) *)
+Definition map_fn (p q : Z) (x : Z) : Z := Z.rem (x * p + q) 100.
+Definition rows_fn (p q : Z) (i j : nat) (x : Z) : Z :=
+  Z.rem (x * p + q + 3 * Z.of_nat i + Z.of_nat j) 100.
